@@ -9,7 +9,8 @@
      * the alpha / per-example-sum part of QpMcSimplexDecomp::updateSMO incl. updateVarsum,
      * the alpha part of QpMcBoxDecomp::updateSMO,
      * QpSparseArray rows as finite maps: operator() lookup and the merge scan the solvers use.
-   Two further constants are needed besides the record: -1.0 and 1e-14.
+   Three further constants are needed besides the record: -1.0, 1e-14 and 1e-6.
+     * maximumGainQuadratic2D / maximumGainQuadratic2DOnLine (working-set selection gains).
    Variables are addressed as (example, p) pairs; the C++ flat index and its shrinking permutation
    are bookkeeping that does not enter the constraints. *)
 From Coq Require Import Arith Bool List.
@@ -150,6 +151,28 @@ Definition box_step (a : nat -> nat -> A) (o : mcop) : nat -> nat -> A :=
   end.
 Definition box_run (a : nat -> nat -> A) (ops : list mcop) : nat -> nat -> A := fold_left box_step ops a.
 
+(* ---------------- working-set gains (Impl/AnalyticProblems.h) ---------------- *)
+
+Variable micro : A.                   (* 1e-6 *)
+
+(* maximumGainQuadratic2D(Qii, Qjj, Qij, gi, gj) with the default minDetFrac = 1e-12 *)
+Definition max_gain_2d (Qii Qjj Qij gi gj : A) : A :=
+  let diagQ := mul Qii Qjj in
+  let detQ := sub diagQ (mul Qij Qij) in
+  let reg := negb (ltb (mul thr diagQ) detQ) in            (* detQ <= minDetFrac*diagQ *)
+  let Qii' := if reg then add Qii micro else Qii in
+  let Qjj' := if reg then add Qjj micro else Qjj in
+  let detQ' := if reg then sub (mul Qii' Qjj') (mul Qij Qij) else detQ in
+  div (add (sub (mul (mul gj gj) Qii') (mul (mul (mul two gj) gi) Qij)) (mul (mul gi gi) Qjj')) detQ'.
+
+(* maximumGainQuadratic2DOnLine(Qii, Qjj, Qij, gi, gj) with the default minCurvature = 1e-12 *)
+Definition max_gain_line (Qii Qjj Qij gi gj : A) : A :=
+  let g := sub gi gj in
+  if negb (ltb zero g) then zero                            (* g <= 0 *)
+  else
+    let Q := maxA O (sub (add Qii Qjj) (mul two Qij)) thr in
+    div (mul g g) Q.
+
 (* ---------------- QpSparseArray rows ---------------- *)
 
 (* operator()(row, col): first explicit entry with that index, else the row default *)
@@ -178,3 +201,4 @@ Arguments solve_tri {A}. Arguments upd2 {A}. Arguments asum {A}. Arguments mkmc 
 Arguments vs {A}. Arguments upd_varsum {A}. Arguments simplex_step1 {A}. Arguments simplex_step2 {A}.
 Arguments Op1 {A}. Arguments Op2 {A}. Arguments simplex_step {A}. Arguments simplex_run {A}.
 Arguments box_step {A}. Arguments box_run {A}. Arguments sa_lookup {A}. Arguments sa_scan {A}.
+Arguments max_gain_2d {A}. Arguments max_gain_line {A}.
